@@ -370,6 +370,46 @@ def monitor_factory(into_items):
 
 
 
+
+def native_union_roundtrips(out):
+    """unions whose members are told apart by the written form although an earlier member would read the TYPED value (a date member
+    reads a datetime instance, the datetime member alone reads its ISO text): the round trip holds for these on every tree on
+    which each member writes what it reads, so no recorded cause applies"""
+    import datetime
+    import pane
+    n = 0
+    D, DT, TM = datetime.date, datetime.datetime, datetime.time
+    cases = [
+        (t.Union[D, DT], ['2024-02-29T23:59:58', '2024-02-29', '2024-02-29T00:00:00']),
+        (t.Union[TM, DT], ['2024-02-29T13:45:10', '13:45:10']),
+        (t.Union[DT, D], ['2024-02-29T23:59:58', '2024-02-29']),
+        (t.Optional[t.Union[D, DT]], ['2024-02-29T23:59:58', None]),
+        (t.List[t.Union[D, DT]], [['2024-02-29T23:59:58', '2024-02-29']]),
+        (t.Dict[str, t.Union[TM, DT]], [{'a': '2024-02-29T13:45:10', 'b': '13:45:10'}]),
+    ]
+
+    class Event(pane.PaneBase):
+        name: str
+        when: t.Union[D, DT]
+        alarms: t.List[t.Union[TM, DT]] = pane.field(default_factory=list)
+    cases.append((Event, [{'name': 'launch', 'when': '2024-02-29T13:45:10', 'alarms': ['2024-02-29T13:45:10', '07:00:00']}, {'name': 'day', 'when': '2024-02-29'}]))
+    with warnings.catch_warnings():
+        warnings.simplefilter('ignore')
+        for T, datas in cases:
+            for data in datas:
+                n += 1
+                try:
+                    x = pane.from_data(data, T)
+                    d = pane.into_data(x, T)
+                    y = pane.from_data(d, T)
+                except Exception as e:
+                    out.violation(f'C05:native-union-roundtrip:{type(e).__name__}', f'{T!r} from {data!r}: {type(e).__name__}: {str(e)[:200]}', {'type': repr(T), 'data': repr(data)})
+                    continue
+                if canon(y) != canon(x) or repr(y) != repr(x):
+                    out.violation('C05:native-union-roundtrip', f'{T!r}: x = {x!r} is written as {d!r}, which reads back as {y!r}', {'type': repr(T), 'data': repr(data)})
+    return n
+
+
 def custom_converter_roundtrips(out):
     """dataclasses whose fields are written and read by a user converter with a non-identity serialised form (an int number of
     cents written as '12.34'), attached to the field, to the class (both layouts) and at the call: the round trip must hold and the
@@ -445,6 +485,7 @@ def run(ctx, out):
                 'dataclass configurations: layouts (struct/tuple in/out), class rename styles, aliases, in_names, rename, out_name, '
                 'kw-only, excluded fields (skipped when the output form is not enabled on input). Non-trivial = non-leaf type.')
     out.evaluations += custom_converter_roundtrips(out)
+    out.evaluations += native_union_roundtrips(out)
     into_items = []
     cases = convprop.run(ctx, out, PROP, monitor_factory(into_items), cfg={'naming_density': 2.5, 'weights': {'class': 4.5, 'union': 1.5, 'tagged': 1.2, 'std': 1.0}},
                          extra_cases=lambda rng: convprop.cases_from_pairs(gen.subclass_union_cases(rng), rng, 'subclass-union'))
